@@ -30,7 +30,47 @@ func ruleTInsc(c *Ctx) {
 		return
 	}
 	template := map[int]int64{0: 0x76, 1: 0xa9, 3: 0x88, 4: 0xac, 5: 0x00, 6: 0x63, 8: 0x51, 10: 0x00, 12: 0x68, 13: 0x6a}
+	// the fixed positions as a table of (index, opcode) rows walked by a loop whose body is
+	// "if !partIsOpcode(parts, row.index, row.op) { return false }": the loop stands for the conjunction of its
+	// rows; what follows it is read from the paths that go on from the loop's back edge to its exit
+	rowAtoms, rowCall, loopPaths, exitPaths, rowErr := inscRowLoop(c, fn, paths, template)
+	if rowErr != "" {
+		c.Fail("T-insc", "isP2PKHInscriptionHelper", fn.Pos(), rowErr)
+		return
+	}
+	if rowCall != "" {
+		var straight []*DPath
+		for _, p := range paths {
+			if !pathMentions(p, rowCall) {
+				straight = append(straight, p)
+			}
+		}
+		paths = straight
+	}
 	bases := map[string]*T{}
+	for _, p := range append(append([]*DPath{}, loopPaths...), exitPaths...) {
+		for _, cd := range p.Conds {
+			if cd.Cond.String() == rowCall {
+				continue
+			}
+			bt := map[string]*T{}
+			baseTerms(cd.Cond, bt)
+			counter := false
+			for _, t := range bt {
+				if t.K == "phi" {
+					counter = true // the loop's own exit test (the row counter against the table's length)
+				}
+			}
+			if !counter {
+				baseTerms(cd.Cond, bases)
+			}
+		}
+		if p.Ret != nil {
+			for _, r := range p.Ret.Results {
+				baseTerms(p.Env.Term(r), bases)
+			}
+		}
+	}
 	for _, p := range paths {
 		for _, cd := range p.Conds {
 			baseTerms(cd.Cond, bases)
@@ -143,6 +183,64 @@ func ruleTInsc(c *Ctx) {
 					got["false"] = true
 				}
 			}
+			// through the row loop: the conditions before it, then every row, then what follows the loop
+			for _, lp := range loopPaths {
+				ok := true
+				for _, cd := range lp.Conds {
+					if cd.Cond.String() == rowCall {
+						break
+					}
+					v, evaluated := evalTerm(cd.Cond, asg)
+					if !evaluated {
+						got["a condition that does not fold: "+cd.Cond.String()] = true
+						ok = false
+						break
+					}
+					if (v.Sign() != 0) != cd.Truth {
+						ok = false
+						break
+					}
+				}
+				if !ok {
+					continue
+				}
+				allRows := true
+				for _, a := range rowAtoms {
+					if !val[a] {
+						allRows = false
+					}
+				}
+				if !allRows {
+					got["false"] = true
+					continue
+				}
+				for _, xp := range exitPaths {
+					ok := true
+					for _, cd := range xp.Conds {
+						v, evaluated := evalTerm(cd.Cond, asg)
+						if !evaluated {
+							// the loop's own exit test (the row counter against the table's length)
+							continue
+						}
+						if (v.Sign() != 0) != cd.Truth {
+							ok = false
+							break
+						}
+					}
+					if !ok {
+						continue
+					}
+					v, evaluated := evalTerm(xp.Env.Term(xp.Ret.Results[0]), asg)
+					switch {
+					case !evaluated:
+						got["a result that does not fold: "+xp.Env.Term(xp.Ret.Results[0]).String()] = true
+					case v.Sign() != 0:
+						got["true"] = true
+					default:
+						got["false"] = true
+					}
+				}
+			}
 			cells++
 			if w := fmt.Sprint(want); len(got) != 1 || !got[w] {
 				if len(bad) < 4 {
@@ -170,6 +268,11 @@ func constBytesOfCallArg(t *T, k int) string {
 	if !ok || k >= len(call.Call.Args) {
 		return ""
 	}
+	if cv, ok := call.Call.Args[k].(*ssa.Convert); ok { // []byte("ord")
+		if c, ok := cv.X.(*ssa.Const); ok && c.Value != nil && c.Value.Kind() == constant.String {
+			return fmt.Sprintf("%x", constant.StringVal(c.Value))
+		}
+	}
 	bs, ok := literalBytes(call.Call.Args[k])
 	if !ok {
 		return ""
@@ -179,4 +282,103 @@ func constBytesOfCallArg(t *T, k int) string {
 		s += fmt.Sprintf("%02x", b)
 	}
 	return s
+}
+
+func pathMentions(p *DPath, termStr string) bool {
+	for _, cd := range p.Conds {
+		if cd.Cond.String() == termStr {
+			return true
+		}
+	}
+	return false
+}
+
+// inscRowLoop recognises the row loop (see ruleTInsc). Returns the template atoms of the rows, the spelling of
+// the loop's partIsOpcode call, the entry paths that reach the loop's back edge with that call true, the
+// paths from the back edge to a return that do not go round again, and "" or what does not fit.
+func inscRowLoop(c *Ctx, fn *ssa.Function, paths []*DPath, template map[int]int64) (atoms []string, callStr string, loopPaths, exitPaths []*DPath, problem string) {
+	var call *ssa.Call
+	for _, p := range paths {
+		for _, cd := range p.Conds {
+			t := cd.Cond
+			if t.K != "call" || !strings.Contains(t.Name, "partIsOpcode") || len(t.Args) != 3 || (t.Args[1].K == "const" && t.Args[2].K == "const") {
+				continue
+			}
+			cl, ok := t.V.(*ssa.Call)
+			if !ok {
+				return nil, "", nil, nil, "a partIsOpcode test with run-time arguments that is not a call: " + t.String()
+			}
+			if call != nil && call != cl {
+				return nil, "", nil, nil, "two different partIsOpcode tests with run-time arguments"
+			}
+			call, callStr = cl, t.String()
+		}
+	}
+	if call == nil {
+		return nil, "", nil, nil, ""
+	}
+	rows1, f1 := rowFieldOfTable(c.P, call.Call.Args[1])
+	rows2, f2 := rowFieldOfTable(c.P, call.Call.Args[2])
+	if rows1 == nil || rows2 == nil || len(rows1) != len(rows2) || len(rows1) == 0 {
+		return nil, "", nil, nil, "partIsOpcode is called with run-time arguments that are not the fields of a row of a constant table: " + callStr
+	}
+	for ri, row := range rows1 {
+		iv, okI := row[f1]
+		ov, okO := rows2[ri][f2]
+		if !okI || !okO {
+			return nil, "", nil, nil, "a row of the table lacks the field read"
+		}
+		if want, ok := template[int(iv.Int64())]; !ok || want != ov.Int64() {
+			return nil, "", nil, nil, fmt.Sprintf("the recogniser tests something the template does not have: part %d for opcode %#x (row %d of its table)", iv.Int64(), ov.Int64(), ri)
+		}
+		atoms = append(atoms, fmt.Sprintf("A%d", iv.Int64()))
+	}
+	// the shape of the loop body: the call false ends with false, the call true goes round
+	var edge [2]*ssa.BasicBlock
+	for _, p := range paths {
+		if !pathMentions(p, callStr) {
+			continue
+		}
+		var truth, last bool
+		for i, cd := range p.Conds {
+			if cd.Cond.String() == callStr {
+				truth, last = cd.Truth, i == len(p.Conds)-1
+			}
+		}
+		switch {
+		case truth && last && p.EndKind == "loop" && p.Target != nil && len(p.Blocks) > 0:
+			e := [2]*ssa.BasicBlock{p.Blocks[len(p.Blocks)-1], p.Target}
+			if edge[0] != nil && edge != e {
+				return nil, "", nil, nil, "the row loop has several back edges"
+			}
+			edge = e
+			loopPaths = append(loopPaths, p)
+		case !truth && last && p.EndKind == "return" && p.Ret != nil && len(p.Ret.Results) == 1:
+			if t := p.Env.Term(p.Ret.Results[0]); !(t.K == "const" && t.C != nil && t.C.Kind() == constant.Bool && !constant.BoolVal(t.C)) {
+				return nil, "", nil, nil, "a row that does not match does not end the recogniser with false"
+			}
+		default:
+			return nil, "", nil, nil, "the loop over the template rows is not of the form 'a row that does not match: false; otherwise the next row'"
+		}
+	}
+	if edge[0] == nil {
+		return nil, "", nil, nil, "the loop over the template rows never goes round"
+	}
+	more, err := enumPaths(edge[1], edge[0], nil, 20000)
+	if err != nil {
+		return nil, "", nil, nil, "cannot enumerate the paths after the row loop: " + err.Error()
+	}
+	for _, p := range filterFeasible(more) {
+		if pathMentions(p, callStr) {
+			continue // the next row
+		}
+		if p.EndKind != "return" || p.Ret == nil || len(p.Ret.Results) != 1 {
+			return nil, "", nil, nil, "after the row loop a path ends in " + p.EndKind
+		}
+		exitPaths = append(exitPaths, p)
+	}
+	if len(exitPaths) == 0 {
+		return nil, "", nil, nil, "no path leaves the row loop"
+	}
+	return atoms, callStr, loopPaths, exitPaths, ""
 }
